@@ -518,6 +518,21 @@ func (eng *Engine) checkContract(u *FuncUnit) {
 		eng.precallSites = nil
 		eng.localClause = ""
 	}
+	for _, pa := range u.C.PreAssigns {
+		eng.localClause = "preassign:" + pa.Cl.Label
+		eng.checkClause(u.Pkg, pa.Cl, u.Decl.Body.Rbrace, u, false)
+		eng.localClause = ""
+	}
+	for n, cls := range u.C.ClosureEnsures {
+		lit := nthFuncLit(u.Decl, n)
+		if lit == nil {
+			eng.broken = append(eng.broken, fmt.Sprintf("%s: %s has no function literal number %d", u.Spec.Dir, u.Name(), n))
+			continue
+		}
+		for _, cl := range cls {
+			eng.checkClause(u.Pkg, cl, lit.Body.Rbrace, u, false)
+		}
+	}
 	for n, cl := range u.C.ClosureAccepts {
 		lit := nthFuncLit(u.Decl, n)
 		if lit == nil {
